@@ -334,6 +334,8 @@ class NoPanic:
             self.pre[p] = pre
             self.cursor_model(fn, B)
             self.halving_loops(fn, B)
+            self.accumulator_loops(fn, B)
+            self.counted_loop_axioms(fn, B)
             if any(q == p for q, bb in P.callees(fn)):
                 self.recursive_pre(fn, B)
         # closures that only spell out the panic message of an `unwrap_or_else` are covered by that call site
@@ -372,6 +374,8 @@ class NoPanic:
                 self.pre[p] = pre
                 self.cursor_model(fn, B)
                 self.halving_loops(fn, B)
+                self.accumulator_loops(fn, B)
+                self.counted_loop_axioms(fn, B)
                 self.scan(fn)
             for r in self.records:
                 if r.get("origin") and r["status"] == "audited":
@@ -902,6 +906,207 @@ class NoPanic:
                         self.ctx.extra.setdefault("loop_bounds", []).append("%s: local %s in [%d, %d] (halving loop on %s)" % (
                             fn.path.split("::")[-1], fn.locals[c].get("name") or c, k0, k0 + BOUND, fn.locals[n].get("name") or n))
 
+    ITER_PASS = ("iter", "iter_mut", "into_iter", "enumerate", "map", "copied", "cloned", "filter", "filter_map", "take_while", "skip_while", "rev", "skip", "by_ref",
+                 "deref", "deref_mut", "as_ref", "as_slice", "as_mut_slice", "as_mut", "into_iter", "peekable", "inspect", "chunks", "chunks_exact", "windows", "step_by", "values", "keys", "drain")
+
+    def trip_bound(self, fn, L, B):
+        """Upper bound on the number of iterations of loop L that get past its `next()` call, or None.  Iterators over slices, vectors and
+        maps yield at most 2^63 items (allocation limit), a Range{a,b} of usize at most b - a <= 2^64 - 1."""
+        h, body = L["header"], L["body"]
+        back = [s for (s, d) in L["backedges"]]
+        W = self.W
+        best = None
+        for bl in sorted(body):
+            t = fn.blocks[bl].term
+            if t["k"] != "call" or callee_name(t["fn"].get("path", "")) != "next" or not all(fn.dominates(bl, s) for s in back):
+                continue
+            src = W.expand(B.ev.call_args(bl)[0])
+
+            def tb(x, depth=0):
+                while isinstance(x, tuple) and x and x[0] == "reader":
+                    x = x[1]
+                if depth > 8 or not isinstance(x, tuple) or not x:
+                    return None
+                if x[0] == "agg" and str(x[1]).endswith("Range::Range") and len(x[2]) == 2:
+                    hi = B.upper(x[2][1], h)
+                    lo = x[2][0][1] if x[2][0][0] == "int" else 0
+                    return (2 ** 64 - 1) if hi == INF else max(int(hi) - lo, 0)
+                if x[0] in ("arr", "tuple") and len(x) > 1 and isinstance(x[-1], tuple):
+                    return len(x[-1]) if all(isinstance(e, tuple) for e in x[-1]) else None
+                if x[0] == "bytes":
+                    return len(x[1])
+                if is_call(x):
+                    nm = callee_name(x[1])
+                    if nm == "take" and len(x[2]) == 2:
+                        a, n = tb(x[2][0], depth + 1), B.upper(x[2][1], h)
+                        n = None if n == INF else int(n)
+                        return min([v for v in (a, n) if v is not None], default=None)
+                    if nm in ("zip", "chain") and len(x[2]) == 2:
+                        a, b2 = tb(x[2][0], depth + 1), tb(x[2][1], depth + 1)
+                        if nm == "zip":
+                            return min([v for v in (a, b2) if v is not None], default=None)
+                        return None if a is None or b2 is None else a + b2
+                    if nm == "once":
+                        return 1
+                    if nm in self.ITER_PASS and x[2]:
+                        return tb(x[2][0], depth + 1)
+                    return None
+                if x[0] == "obj" and x[1] == fn.path:
+                    # a vector built in this function: its length is at most the number of pushes, each push site bounded by the loops around it
+                    n = self.pushes_bound(fn, x, B, depth)
+                    if n is not None:
+                        return n
+                if x[0] in ("param", "field", "obj", "index", "local", "vfield", "phi"):
+                    hi = B.upper(("len", x), h)
+                    return 2 ** 63 if hi == INF else int(hi)
+                return None
+            v = tb(src)
+            if v is not None:
+                best = v if best is None else min(best, v)
+        if best is None:
+            from lib import counted_trips
+            ct = counted_trips(W, B.ev, fn, L)
+            if ct is not None:
+                def f(t):
+                    if isinstance(t, tuple) and t and t[0] == "int":
+                        return t[1]
+                    # the count is monotone: largest bound, smallest start (and the reverse for a countdown)
+                    want_hi = (t == ct["bound"]) == (ct["step"] == 1)
+                    v = B.upper(t, h) if want_hi else B.lower(t, h)
+                    return None if v in (INF, -INF) else int(v)
+                best = ct["count"](f)
+        return best
+
+    def counted_loop_axioms(self, fn, B):
+        """A counter that only moves by one in one direction stays on that side of its initial value: `left <= n` for `left = n; while left > 0
+        { left -= 1; .. }`, `i >= 0` for an up-counter.  (Checked arithmetic: the step itself is a separate obligation, so the counter never wraps.)"""
+        from lib import counted_trips
+        for L in fn.loops():
+            ct = counted_trips(self.W, B.ev, fn, L)
+            if ct is None:
+                continue
+            c = ct["info"]["counter"]
+            tb_ = ct["info"]["test"]
+            X = B.ev.local(c, (tb_, 0))
+            ax = ("Le", X, ct["init"]) if ct["step"] == -1 else ("Le", ct["init"], X)
+            if ax not in B.axioms:
+                B.axioms.append(ax)
+
+    def pushes_bound(self, fn, obj, B, depth=0):
+        """len(obj) <= number of executed `push` calls on it, when nothing else grows it."""
+        if depth > 2:
+            return None
+        total = 0
+        for bb, t in fn.calls():
+            tys = t.get("arg_tys") or []
+            if not tys or not tys[0].startswith("&mut"):
+                continue
+            a = B.ev.call_args(bb)
+            if not a or a[0] != obj:
+                continue
+            nm = callee_name(t["fn"].get("path", ""))
+            if nm in self.NONGROWING or nm in ("clear", "truncate", "pop", "reserve", "reserve_exact", "sort", "sort_unstable", "iter_mut", "as_mut_slice", "deref_mut", "index_mut", "last_mut", "first_mut"):
+                continue
+            if nm != "push":
+                return None
+            T = 1
+            for L in fn.loops():
+                if bb in L["body"]:
+                    tc = self.__dict__.setdefault("_tc", {})
+                    tb = tc.setdefault((fn.path, L["header"]), "?")
+                    if tb == "?":
+                        tc[(fn.path, L["header"])] = None      # cycle guard: a loop over the vector it fills
+                        tb = self.trip_bound(fn, L, B)
+                        tc[(fn.path, L["header"])] = tb
+                    if tb is None:
+                        return None
+                    T *= tb
+            total += T
+        return total
+
+    def accumulator_loops(self, fn, B):
+        """Loop-bound lemma for counters and totals.  A 64-bit local that is set to a constant k before a nest of bounded loops and is only ever
+        changed inside them by `c = c + d` is at most k + sum over the update sites of (product of the trip bounds of the loops around the site that do
+        not contain the initialisation) * max d: a block runs at most once per iteration of its innermost loop.  The lemma records that range
+        for the local when it is below 2^64, which discharges the overflow obligation of the update."""
+        from lib import arith_eval, NotArith
+        from values import Ev
+        P = self.P
+        if not fn.loops():
+            return
+        int_locals = [l for l, loc in enumerate(fn.locals) if loc["ty"] in ("usize", "u64")]
+        defs = fn.defs()
+        trips = {}
+        for c in int_locals:
+            ds = [(b, i, k) for (b, i, k) in defs.get(c, []) if b in fn.reachable()]
+            if len(ds) < 2 or any(k != "whole" or i == "term" for (b, i, k) in ds):
+                continue
+            inits = []
+            for (b, i, k) in ds:
+                rv = fn.blocks[b].stmts[i]["rv"]
+                k0 = rv["op"].get("c", {}).get("int") if rv["k"] == "use" and "c" in rv.get("op", {}) else None
+                if isinstance(k0, int) and not isinstance(k0, bool):
+                    inits.append((b, i, k0))
+            if len(inits) != 1:
+                continue
+            ib, ii, k0 = inits[0]
+            CS = ("sym", "acc")
+            evc = Ev(P, fn, overrides={c: CS})
+            total = k0
+            ok = True
+            sites = []
+            for (b, i, k) in ds:
+                if (b, i) == (ib, ii):
+                    continue
+                if not fn.dominates(ib, b):
+                    ok = False
+                    break
+                t = self.W.expand(evc.rvalue(fn.blocks[b].stmts[i]["rv"], (b, i)))
+                if t == CS:
+                    continue
+                d = None
+                if isinstance(t, tuple) and t and t[0] == "bin" and t[1] == "Add":
+                    if t[2] == CS and not values.contains(t[3], lambda y: y == CS):
+                        d = t[3]
+                    elif t[3] == CS and not values.contains(t[2], lambda y: y == CS):
+                        d = t[2]
+                if d is None:
+                    ok = False
+                    break
+                D = B.upper(d, b)
+                if D == INF:
+                    ok = False
+                    break
+                around = [L for L in fn.loops() if b in L["body"] and ib not in L["body"]]
+                if not around:
+                    ok = False       # a straight-line second assignment: not an accumulator
+                    break
+                T = 1
+                for L in around:
+                    key = L["header"]
+                    if key not in trips:
+                        trips[key] = self.trip_bound(fn, L, B)
+                    if trips[key] is None:
+                        T = None
+                        break
+                    T *= trips[key]
+                if T is None:
+                    ok = False
+                    break
+                total += T * int(D)
+                sites.append((b, i))
+            if not ok or not sites or total >= 2 ** 64:
+                continue
+            lr = B.__dict__.setdefault("local_ranges", {})
+            lr[c] = (k0, total)
+            for (b, i) in sites:
+                rv = fn.blocks[b].stmts[i]["rv"]
+                o = (rv["op"].get("mv") or rv["op"].get("cp")) if rv["k"] == "use" else None
+                if o and o.get("p") and len(o["p"]) == 1 and isinstance(o["p"][0], dict) and o["p"][0].get("f") == 0:
+                    lr[(o["l"], "0")] = (k0, total)
+            self.ctx.extra.setdefault("loop_bounds", []).append("%s: local %s in [%d, %d] (accumulator over bounded loops)" % (
+                fn.path.split("::")[-1], fn.locals[c].get("name") or c, k0, total))
+
     def same_assert_before(self, fn, B, b, t, kind, ops):
         """A dominating assert of the same kind on the same operand values: it did not fail on the way here, so this one cannot (terms are
         values; a dominating site lies between the last visit of every enclosing loop header and this site, so loop variables agree)."""
@@ -1219,6 +1424,11 @@ class NoPanic:
                 a0 = tt0["args"][0].get("mv") or tt0["args"][0].get("cp")
                 continue
             break
+        x0 = x
+        while isinstance(x0, tuple) and x0 and x0[0] == "vfield":
+            x0 = x0[1]
+        if ev.known_variant(x0) in ("Ok", "Some"):
+            return self.rec(fn, b, name, coarse(P, x0), "typed", "the value is built as Ok/Some on every path that reaches the %s (error arms of never-failing callees are pruned)" % name)
         xs = values.strip_payload(x)
         # the result of an inlined `fn f(..) -> Result<T, E> { let v = g(..)?; Ok(T::new(v)) }`: it is Err exactly when g(..) is: the site is about g
         if isinstance(xs, tuple) and xs and xs[0] == "phi":
@@ -1238,6 +1448,19 @@ class NoPanic:
                     break
             if oks_ and srcs_ and len({values.fmt(s0) for s0 in srcs_}) == 1:
                 xs = srcs_[0]
+            elif oks_ and srcs_:
+                # several fallible steps (`m.add_field(A, a)?; m.add_field(B, b)?; Ok(m)`): the value is Err exactly when one of them is; each is
+                # judged where it stands
+                whys = []
+                for s0 in srcs_:
+                    sb = s0[3][1] if is_call(s0) and len(s0) > 3 and s0[3] and s0[3][0] == fn.path else b
+                    w0 = self.never_fails(fn, B, sb, s0)
+                    if not w0:
+                        whys = None
+                        break
+                    whys.append(w0)
+                if whys:
+                    return self.rec(fn, b, name, coarse(P, srcs_[0]), "typed", "every fallible step behind this value cannot fail: " + "; ".join(sorted(set(whys))))
         desc = coarse(P, xs)
         rels = flow.rel_facts_at(B.IN, b)
         is_opt = "Option" in t["fn"].get("path", "")
